@@ -132,4 +132,15 @@ theorem C12_gate (r : Route.Reg) (env : Route.Env) (bit : Nat) (path : Str) :
         repeat' split at h
         all_goals first | (cases h; simp_all [Bool.and_eq_true]; done) | cases h
 
+/-! ### non-vacuity -/
+
+/-- non-vacuity: a path that climbs out lexically is confined to the root -/
+example : rfile "/srv/site".toList "../../etc/passwd".toList = "/srv/site/etc/passwd".toList := by decide
+
+example : rfile "/srv/site".toList "a/./b/../c".toList = "/srv/site/a/c".toList := by decide
+
+/-- the antecedents of `C12_gate` are reachable -/
+example : Route.select {} ⟨true, true, true, false, false, false⟩ 2 "/x".toList = .file := by decide
+example : Route.select {} ⟨true, true, false, true, true, false⟩ 2 "/d".toList = .dirIndex := by decide
+
 end Poor.Props.C12
